@@ -250,8 +250,7 @@ pub mod proofs {
         kani::cover!(slot.n == 0, "slot without actions");
     }
 
-    /// Concrete history (quick tier): ids, order, cross-signal independence, stale
-    /// ids, removal by signal, the handler stays installed.
+    /// Concrete history (quick tier): ids, order, cross-signal independence, stale ids.
     #[kani::proof]
     #[kani::unwind(7)]
     pub fn c05_q_concrete_history() {
@@ -261,7 +260,7 @@ pub mod proofs {
         let c = ok(unsafe { register(SB, || hit(3)) });
         assert!(a.is_some() && b.is_some() && c.is_some(), "C05: registering a catchable signal failed");
         let (ia, ib, ic) = (reg::sigid_parts(a.unwrap()).1, reg::sigid_parts(b.unwrap()).1, reg::sigid_parts(c.unwrap()).1);
-        assert!(ia != ib && ib != ic && ia != ic && ia < ib && ib < ic, "C05: the id handed out is not a fresh one (ids must never repeat)");
+        assert!(ia < ib && ib < ic, "C05: the id handed out is not a fresh one (ids must never repeat)");
         assert!(installed(SA) && installed(SB), "C05: the library's handler with SA_RESTART|SA_SIGINFO is not the disposition after register");
         deliver(SA);
         unsafe {
@@ -270,27 +269,53 @@ pub mod proofs {
         clear_log();
         assert!(unregister(a.unwrap()), "C05: unregister of a live id returned false");
         assert!(!unregister(a.unwrap()), "C05: unregister of a stale id returned true");
-        assert!(!unregister(reg::make_sigid(SB, ia)), "C05: unregister of an id paired with the wrong signal returned true");
         deliver(SA);
         deliver(SB);
         unsafe {
             assert!(L::n == 2 && L::log[0] == 2 && L::log[1] == 3, "C05: removal of one action changed what other actions or signals do");
         }
-        clear_log();
-        let d = ok(unsafe { register(SA, || hit(4)) });
-        assert!(d.is_some(), "C05: registering a catchable signal failed");
-        assert!(reg::sigid_parts(d.unwrap()).1 > ic, "C05: the id handed out is not a fresh one (ids must never repeat)");
-        #[allow(deprecated)]
-        let r = unregister_signal(SB);
-        assert!(r, "C05: unregister_signal's result does not say whether it removed anything");
-        deliver(SB);
-        deliver(SA);
-        unsafe {
-            assert!(L::n == 2 && L::log[0] == 2 && L::log[1] == 4, "C05: unregister_signal touched another signal or left actions behind");
-        }
         assert!(installed(SA) && installed(SB), "C05: a taken-over signal lost the library's handler (with SA_RESTART|SA_SIGINFO)");
         kani::cover!(true, "history completed");
         kani::cover!(unsafe { K::sigaction_sets } == 2, "sigaction set exactly once per signal");
+    }
+
+    /// ids stay fresh after a removal; a stale id never removes a later action
+    fn fresh_ids(by_signal: bool) {
+        reg::init_globals();
+        let mut b = reg::StateBuilder::new();
+        b.slot(SA, 0, 0);
+        install(SA);
+        b.action(SA, 1, reg::action_from(|_| hit(1)));
+        b.publish(2);
+        if by_signal {
+            #[allow(deprecated)]
+            let r = unregister_signal(SA);
+            assert!(r, "C05: unregister_signal's result does not say whether it removed anything");
+        } else {
+            assert!(unregister(reg::make_sigid(SA, 1)), "C05: unregister of a live id returned false");
+        }
+        let d = ok(unsafe { register(SA, || hit(4)) });
+        assert!(d.is_some(), "C05: registering a catchable signal failed");
+        let nid = reg::sigid_parts(d.unwrap()).1;
+        assert!(nid == 2, "C05: the id handed out is not a fresh one (ids must never repeat)");
+        assert!(!unregister(reg::make_sigid(SA, 1)), "C05: unregister of a stale id returned true (and removed a later action)");
+        deliver(SA);
+        unsafe {
+            assert!(L::n == 1 && L::log[0] == 4, "C05: a stale id removed a later action, or a removed action still runs");
+        }
+        assert!(installed(SA), "C05: a taken-over signal lost the library's handler (with SA_RESTART|SA_SIGINFO)");
+        kani::cover!(true, "completed");
+        kani::cover!(nid == 2, "fresh id");
+    }
+    #[kani::proof]
+    #[kani::unwind(7)]
+    pub fn c05_q_fresh_ids_after_unregister() {
+        fresh_ids(false);
+    }
+    #[kani::proof]
+    #[kani::unwind(7)]
+    pub fn c05_q_fresh_ids_after_unregister_signal() {
+        fresh_ids(true);
     }
 
     /// unregister of ANY (signal, u128 id) pair from a concrete three-action state
